@@ -165,22 +165,23 @@ def gen_injection_cases(rng, per_proto, protos=None):
         L = exchange(proto, rng, tags)
         inj = injections(proto, L, rng, tags)
         c0pos = next((k for k, l in enumerate(L) if l.startswith("ctx c0 ")), None)
+        c0end = next((k for k, l in enumerate(L) if l.startswith("ctxclose c0")), len(L))
 
         def valid(i, x):
             if " c0" in x or x.endswith(" c0"):
-                return c0pos is not None and i > c0pos          # a context is used only after it was opened
+                return c0pos is not None and c0pos < i <= c0end      # a context is used only while it is open
             return True
         combos = [(i, x) for i in range(1, len(L) + 1) for x in inj if valid(i, x)]
         rng.shuffle(combos)
         if per_proto is not None:
-            # every position at least once, every injection at least once, then random fill
+            # EVERY settable option value at EVERY position always; of the other injections: every position at
+            # least once, every injection at least once, then random fill
             need_pos, need_inj, chosen = set(range(1, len(L) + 1)), set(inj), []
             for c in combos:
-                if c[0] in need_pos or c[1] in need_inj:
+                if c[1].startswith("setopt ") or c[0] in need_pos or c[1] in need_inj:
                     chosen.append(c); need_pos.discard(c[0]); need_inj.discard(c[1])
             rest = [c for c in combos if c not in chosen]
-            chosen = (chosen + rest)[:max(per_proto, len(chosen))] if per_proto >= len(chosen) else chosen[:per_proto]
-            combos = chosen
+            combos = chosen + rest[:max(0, per_proto - len(chosen))]
         for i, x in combos:
             if x.startswith("close"):
                 c = L[:i] + [x]          # nothing is done on a closed socket (handle validity is C10's subject)
@@ -651,11 +652,14 @@ def balance_run(rep, impl, programs, stats, B=25, tmo=90):
         if crash:
             ci, rc, errtxt = crash
             if rc == -9 and "ERROR:" not in errtxt and "runtime error" not in errtxt:
-                # the process hung without any sanitizer report (observed: the reaper thread waiting in a protocol's
-                # pipe_stop -> nni_aio_stop for a pipe aio that never completes, when a device is cancelled under
-                # traffic): a liveness defect of close (C10 / C02), not an ownership or memory-safety one.  Recorded, not judged here.
+                # the process hung without any sanitizer report.  (Seen until /repo 781a263: device_cb closed its sockets
+                # from a pipe's completion callback and the reaper waited for that very callback in pipe_stop ->
+                # nni_aio_stop.)  Not an ownership defect in itself, but everything the process held is never
+                # released: reported, with the batch as replay.
                 stats["hangs"] = stats.get("hangs", 0) + 1
-                rep.replay_file("hang_real_%d.case" % (b0 + ci), "# the process did not finish within the batch timeout and printed no sanitizer report (not judged by C03)\n" + "\n".join(script) + "\n")
+                found += 1
+                p = rep.replay_file("hang_real_%d.case" % (b0 + ci), "# the process did not finish within %d s and printed no sanitizer report: a hang (deadlock) of the library\n" % tmo + "\n".join(script) + "\n")
+                rep.violation(p, "real transports: the library hung (no sanitizer report; %d programs, %d s): nothing it holds is released any more" % (len(batch), tmo))
                 continue
             found += 1
             p = rep.replay_file("crash_real_%d.case" % (b0 + ci), "# implementation crashed / sanitizer report (rc=%s) in a program over a real transport\n# (replay: the whole batch, one process)\n# %s\n" % (rc, errtxt.replace("\n", "\n# ")) + "\n".join(script) + "\n")
@@ -693,8 +697,9 @@ def fini_check(rep, impl, programs, stats, key=None, tmo=300):
     rc, out, err = run_prog(impl, "\n".join(script) + "\n", timeout=tmo)
     fin = [l for l in out if l.startswith("fini ")]
     if rc == -9 and "ERROR:" not in (err or "") and not fin:
-        stats["hangs"] = stats.get("hangs", 0) + 1          # see balance_run: a hang is not C03's subject
-        rep.replay_file("hang_fini.case", "# the allocator-balance process hung (no sanitizer report; not judged by C03)\n" + "\n".join(script) + "\n")
+        stats["hangs"] = stats.get("hangs", 0) + 1
+        p = rep.replay_file("hang_fini.case", "# the allocator-balance process hung (no sanitizer report)\n" + "\n".join(script) + "\n")
+        rep.violation(p, "allocator balance run: the library hung before nng_fini returned (no sanitizer report)")
         return
     if rc != 0 or not fin:
         p = rep.replay_file("fini_crash.case", "# rc=%s %s\n" % (rc, (err or "")[-2000:].replace("\n", "\n# ")) + "\n".join(script) + "\n")
@@ -806,8 +811,7 @@ def run(tier, seed, replay=None):
         devs = [gen_device_program(rng, ["inproc", "ipc"]) for _ in range(24 if quick else 1500)]
         devs += [gen_device_stress(rng, k) for k in range(18 if quick else 1200)]
         balance_run(rep, impl, plain, stats)
-        # device tear-down under traffic can hang the library's reaper (a liveness defect outside C03, see
-        # balance_run): small processes and a short timeout keep such a hang cheap
+        # device tear-down under traffic: small processes and a short timeout keep a hang of the library cheap
         balance_run(rep, impl, devs, stats, B=6, tmo=25)
         tick("balance")
         fini_check(rep, impl, plain[:100 if quick else 600], stats)
@@ -823,7 +827,7 @@ def run(tier, seed, replay=None):
     rep.cov["failed_sends_checked"] = stats["failed_sends"]
     rep.cov["model_impl_divergences"] = stats["diverged"]
     rep.cov["fini_line"] = stats.get("fini", "")
-    rep.cov["hangs_not_judged"] = stats.get("hangs", 0)
+    rep.cov["hangs"] = stats.get("hangs", 0)
     rep.cov["phases_cut_short_by_time_budget"] = list(BUDGET["skipped"])
     rep.cov["rule"] = ("ledger runs: scripts on one socket of every protocol (cooked and raw) over the deterministic transport -- "
                        "each protocol's canonical exchange with every settable option value / cancel / zero-timeout aio / peer loss / "
